@@ -79,25 +79,28 @@ def _flat_value(p, t, v, sub, modelled_only, problems):
 # ---- random trees (direction 2) ---------------------------------------------------------------------
 
 def _i32(r):
-    return r.choice([-2**31, 2**31 - 1, 0, -1, r.randrange(300), r.randrange(-2**31, 2**31)])
+    # incl. the values whose zig-zag varint sits on a length boundary (zigzag(n) = 2^(7k): n = 2^(7k-1)) and their neighbours
+    return r.choice([-2**31, 2**31 - 1, 0, -1, r.randrange(300), r.randrange(-2**31, 2**31), r.choice([64, 8192, 1 << 20, 1 << 27, -65, -8193, -(1 << 20) - 1, -(1 << 27) - 1]) + r.choice([-1, 0, 0, 1])])
 
 
 def _i64(r):
-    return r.choice([-2**63, 2**63 - 1, 0, -1, r.randrange(300), r.randrange(-2**63, 2**63)])
+    return r.choice([-2**63, 2**63 - 1, 0, -1, r.randrange(300), r.randrange(-2**63, 2**63), r.choice([64, 8192, 1 << 20, 1 << 27, 1 << 34, 1 << 41, 1 << 48, 1 << 55, 1 << 62, -65, -8193, -(1 << 34) - 1, -(1 << 62) - 1]) + r.choice([-1, 0, 0, 1])])
 
 
 def _name(r):
     c = r.random()
-    L = 0 if c < 0.12 else (r.randrange(200, 5000) if c < 0.2 else r.randrange(1, 20))
+    L = 0 if c < 0.12 else (r.choice([127, 128, 129, 16383, 16384, 16385]) if c < 0.15 else r.randrange(200, 5000) if c < 0.2 else r.randrange(1, 20))
     return bytes(r.randrange(1, 256) for _ in range(L))
 
 
 def _bin(r):
-    return bytes(r.randrange(256) for _ in range(r.randrange(1, 3000) if r.random() < 0.1 else r.randrange(1, 16)))
+    c = r.random()
+    return bytes(r.randrange(256) for _ in range(r.choice([127, 128, 16383, 16384, 16385]) if c < 0.03 else r.randrange(1, 3000) if c < 0.1 else r.randrange(1, 16)))
 
 
 def _count(r):
-    return 300 if r.random() < 0.04 else r.choice([0, 1, 2, 3, 14, 15, 16, 17, 40])
+    c = r.random()
+    return 300 if c < 0.04 else r.choice([0, 1, 2, 3, 14, 15, 16, 17, 40, 127, 128, 129])    # carquet caps footer lists at 10 000 elements (100 for encodings/paths): larger ones are refused by design
 
 
 def rnd_stats(r, full=True):
@@ -192,7 +195,7 @@ def rnd_page_header(r):
     elif k == 2:
         h.append((7, T_STRUCT, [(1, T_I32, _i32(r)), (2, T_I32, r.randrange(10)), (3, T_TRUE, r.random() < 0.5)]))
     else:
-        d = [(1, T_I32, _i32(r)), (2, T_I32, _i32(r)), (3, T_I32, _i32(r)), (4, T_I32, r.randrange(10)), (5, T_I32, _i32(r)), (6, T_I32, _i32(r)), (7, T_TRUE, r.random() < 0.5)]
+        d = [(1, T_I32, _i32(r)), (2, T_I32, _i32(r)), (3, T_I32, _i32(r)), (4, T_I32, r.randrange(10)), (5, T_I32, _i32(r)), (6, T_I32, _i32(r))] + ([(7, T_TRUE, r.random() < 0.5)] if r.random() < 0.6 else [])    # field 7 is optional, default true
         if r.random() < 0.4: d.append((8, T_STRUCT, rnd_stats(r)))
         h.append((8, T_STRUCT, d))
     return h
@@ -225,7 +228,10 @@ def sprinkle_unknown(r, fields, sname, depth=0):
     for fid, t, v in fields:
         spec = idl.get(fid)
         sub = spec[1] if spec else None
-        if t == T_STRUCT and isinstance(sub, str) and sub not in ('Empty', 'Opaque', 'LogicalType', 'TimeUnit', 'TimeType'):
+        if t == T_STRUCT and sub in ('LogicalType', 'TimeUnit'):
+            # a union: exactly one member stays set; unknown fields go inside the member's struct
+            v = [(f2, t2, (sprinkle_unknown(r, v2, S[sub].get(f2, (None, 'Empty'))[1] or 'Empty', depth + 1) if t2 == T_STRUCT and r.random() < 0.5 else v2)) for f2, t2, v2 in v]
+        elif t == T_STRUCT and isinstance(sub, str) and sub not in ('Opaque',):
             v = sprinkle_unknown(r, v, sub, depth + 1)
         elif t == T_LIST and isinstance(sub, tuple) and sub[0] == T_STRUCT and isinstance(sub[1], str):
             v = (v[0], [sprinkle_unknown(r, it, sub[1], depth + 1) if r.random() < 0.4 else it for it in v[1]])
